@@ -7,7 +7,7 @@ set_option linter.unusedVariables false
 
 namespace OsmoVerif.SchedGsmtime
 open OsmoVerif
-open OsmoVerif.TdmaSched (Item Sched Fault Env u16 Cb Inv OpOk abs absOp ranCount framesOf markers)
+open OsmoVerif.TdmaSched (Item Sched Fault Env u16 Cb Inv OpOk abs absOp ranCount framesOf markers EnvOk NoReentry)
 open OsmoVerif.Spec.TdmaSched (AItem At trackStep placed)
 
 /-! ### no faults -/
@@ -39,7 +39,7 @@ theorem scheduleSet_safe (env : Env) (s : Sched) (off : Nat) (set : List Item) (
     ∃ s' rc, TdmaSched.scheduleSet s off set p3 = .ok (s', rc) ∧ Inv env s' ∧
       (abs s', rc) = Spec.TdmaSched.scheduleSet (abs s) off (framesOf p3 set) := by
   obtain ⟨he, hm, h3, hok⟩ := hop
-  obtain ⟨s', rc, hee, hi, _, ha⟩ := TdmaSched.scheduleSet_spec env s off set p3 hinv he hm h3 hok
+  obtain ⟨s', rc, hee, hi, _, ha, _⟩ := TdmaSched.scheduleSet_spec env s off set p3 hinv he hm h3 hok
   exact ⟨s', rc, hee, hi, ha⟩
 
 theorem schedAll_safe (env : Env) : ∀ (es : List Event) (s : Sched), Inv env s → (∀ e ∈ es, SetOk env e) →
@@ -61,7 +61,7 @@ theorem execute_safe (env : Env) (g : GState) (s : Sched) (fn : Nat) (h : Safe e
   · intro e he
     exact hok e (List.mem_filter.mp he).1
 
-theorem sstep_safe (env : Env) (st : Sys) (op : SOp) (h : Safe env st) (hop : OpSafe env op) :
+theorem sstep_safe (env : Env) (henv : EnvOk env) (st : Sys) (op : SOp) (h : Safe env st) (hop : OpSafe env op) :
     ∃ st' o, sstep env st op = .ok (st', o) ∧ Safe env st' := by
   obtain ⟨hg, hs, hok⟩ := h
   cases op with
@@ -84,16 +84,16 @@ theorem sstep_safe (env : Env) (st : Sys) (op : SOp) (h : Safe env st) (hop : Op
   | greset =>
     exact ⟨_, _, rfl, reset_inv st.g hg, hs, by simp [reset]⟩
   | tdma top =>
-    obtain ⟨s', out, h1, h2, _⟩ := TdmaSched.step_refines env st.s top hs hop
+    obtain ⟨s', out, h1, h2, _⟩ := TdmaSched.step_spec env st.s top hs henv hop
     exact ⟨⟨st.g, s'⟩, ⟨out.rc, out.ran, []⟩, by simp only [sstep, h1, bind, Except.bind, pure, Except.pure],
       hg, h2, hok⟩
 
-theorem srun_safe (env : Env) : ∀ (ops : List SOp) (st : Sys), Safe env st → (∀ op ∈ ops, OpSafe env op) →
+theorem srun_safe (env : Env) (henv : EnvOk env) : ∀ (ops : List SOp) (st : Sys), Safe env st → (∀ op ∈ ops, OpSafe env op) →
     ∃ st' outs, srun env st ops = .ok (st', outs) ∧ Safe env st'
   | [], st, h, _ => ⟨st, [], rfl, h⟩
   | op :: ops, st, h, hops => by
-    obtain ⟨st1, o, h1, i1⟩ := sstep_safe env st op h (hops op (List.mem_cons_self ..))
-    obtain ⟨st2, os, h2, i2⟩ := srun_safe env ops st1 i1 (fun x hx => hops x (List.mem_cons_of_mem _ hx))
+    obtain ⟨st1, o, h1, i1⟩ := sstep_safe env henv st op h (hops op (List.mem_cons_self ..))
+    obtain ⟨st2, os, h2, i2⟩ := srun_safe env henv ops st1 i1 (fun x hx => hops x (List.mem_cons_of_mem _ hx))
     exact ⟨st2, o :: os, by simp only [srun, h1, h2, bind, Except.bind, pure, Except.pure], i2⟩
 
 /-- admissible frame: its requests are admissible operations -/
@@ -102,50 +102,49 @@ def FrameSafe (env : Env) (fr : Frame) : Prop :=
 
 instance (env : Env) (fr : Frame) : Decidable (FrameSafe env fr) := by unfold FrameSafe; infer_instance
 
-theorem l1Sync_safe (env : Env) (st : Sys) (fr : Frame) (h : Safe env st) (hfr : FrameSafe env fr) :
+theorem l1Sync_safe (env : Env) (henv : EnvOk env) (st : Sys) (fr : Frame) (h : Safe env st) (hfr : FrameSafe env fr) :
     ∃ st' o, l1Sync env st fr = .ok (st', o) ∧ Safe env st' := by
-  obtain ⟨st1, pre, h1, i1⟩ := srun_safe env fr.pre st h hfr.1
-  obtain ⟨s2, ex, h2, i2, _⟩ := TdmaSched.step_refines env st1.s .execute i1.2.1 trivial
-  obtain ⟨st3, mid, h3, i3⟩ := srun_safe env fr.mid ⟨st1.g, s2⟩ ⟨i1.1, i2, i1.2.2⟩ hfr.2
+  obtain ⟨st1, pre, h1, i1⟩ := srun_safe env henv fr.pre st h hfr.1
+  obtain ⟨s2, ex, h2, i2, _⟩ := TdmaSched.step_spec env st1.s .execute i1.2.1 henv trivial
+  obtain ⟨st3, mid, h3, i3⟩ := srun_safe env henv fr.mid ⟨st1.g, s2⟩ ⟨i1.1, i2, i1.2.2⟩ hfr.2
   obtain ⟨g4, s4, num, cs, h4, i4⟩ := execute_safe env st3.g st3.s fr.fn i3
   obtain ⟨h5, i5, _⟩ := TdmaSched.advance_spec env s4 i4.2.1
   refine ⟨⟨g4, { s4 with cur := (s4.cur + 1) % 25 }⟩, ⟨pre, ex, mid, num, cs⟩, ?_, i4.1, i5, i4.2.2⟩
   simp only [l1Sync, h1, h2, h3, h4, h5, bind, Except.bind, pure, Except.pure]
 
-theorem runFrames_safe (env : Env) : ∀ (frs : List Frame) (st : Sys), Safe env st →
+theorem runFrames_safe (env : Env) (henv : EnvOk env) : ∀ (frs : List Frame) (st : Sys), Safe env st →
     (∀ fr ∈ frs, FrameSafe env fr) → ∃ st' outs, runFrames env st frs = .ok (st', outs) ∧ Safe env st'
   | [], st, h, _ => ⟨st, [], rfl, h⟩
   | fr :: frs, st, h, hfrs => by
-    obtain ⟨st1, o, h1, i1⟩ := l1Sync_safe env st fr h (hfrs fr (List.mem_cons_self ..))
-    obtain ⟨st2, os, h2, i2⟩ := runFrames_safe env frs st1 i1 (fun x hx => hfrs x (List.mem_cons_of_mem _ hx))
+    obtain ⟨st1, o, h1, i1⟩ := l1Sync_safe env henv st fr h (hfrs fr (List.mem_cons_self ..))
+    obtain ⟨st2, os, h2, i2⟩ := runFrames_safe env henv frs st1 i1 (fun x hx => hfrs x (List.mem_cons_of_mem _ hx))
     exact ⟨st2, o :: os, by simp only [runFrames, h1, h2, bind, Except.bind, pure, Except.pure], i2⟩
 
 /-! ### following one item through the TDMA scheduler -/
 
-/-- one admissible operation of the TDMA scheduler that does not place `x`: where `x` is afterwards, and how
-many times the operation ran it -/
-theorem tstep_track (env : Env) (s s' : Sched) (op : TdmaSched.Op) (out : TdmaSched.Out) (x : AItem Cb)
-    (pos : Option Nat) (hinv : Inv env s) (hop : OpOk env op) (hat : At x (abs s) pos)
+/-- one admissible operation of the TDMA scheduler that does not place `x`, with callbacks that do not schedule
+from inside (`NoReentry`): where `x` is afterwards, and how many times the operation ran it -/
+theorem tstep_track (env : Env) (hne : NoReentry env) (s s' : Sched) (op : TdmaSched.Op) (out : TdmaSched.Out)
+    (x : AItem Cb) (pos : Option Nat) (hinv : Inv env s) (hop : OpOk env op) (hat : At x (abs s) pos)
     (hx : ∀ it ∈ placed (absOp op), it ≠ x) (h : TdmaSched.step env s op = .ok (s', out)) :
     Inv env s' ∧ At x (abs s') (trackStep pos (absOp op)).1 ∧ ranCount x out = (trackStep pos (absOp op)).2 := by
-  obtain ⟨s1, o1, h1, hi, ha, hm⟩ := TdmaSched.step_refines env s op hinv hop
+  obtain ⟨s1, o1, h1, hi, ht⟩ := TdmaSched.step_track_model env s op x pos hinv
+    (TdmaSched.noReentry_envOk env hne) hop hat hx
   rw [h1] at h
   simp only [Except.ok.injEq, Prod.mk.injEq] at h
   obtain ⟨e1, e2⟩ := h
   subst e1; subst e2
-  obtain ⟨t1, t2⟩ := Spec.TdmaSched.step_track x (abs s) pos (absOp op) hat hx
-  refine ⟨hi, by rw [ha]; exact t1, ?_⟩
-  rw [← t2]
-  exact hm.2.1.count_eq x
+  obtain ⟨t1, t2⟩ := ht (by rw [TdmaSched.flyOps_noReentry env hne]; intro c hc; simp at hc)
+  exact ⟨hi, t1, t2⟩
 
 /-- a `tdma_schedule_set` call whose set does not contain `x` -/
-theorem scheduleSet_track (env : Env) (s s' : Sched) (off : Nat) (set : List Item) (p3 : Nat) (rc : Int)
+theorem scheduleSet_track (env : Env) (hne : NoReentry env) (s s' : Sched) (off : Nat) (set : List Item) (p3 : Nat) (rc : Int)
     (x : AItem Cb) (pos : Option Nat) (hinv : Inv env s) (hop : OpOk env (.scheduleSet off set p3))
     (hat : At x (abs s) pos) (hx : x ∉ (framesOf p3 set).flatten)
     (h : TdmaSched.scheduleSet s off set p3 = .ok (s', rc)) : Inv env s' ∧ At x (abs s') pos := by
-  have hstep : TdmaSched.step env s (.scheduleSet off set p3) = .ok (s', ⟨rc, []⟩) := by
+  have hstep : TdmaSched.step env s (.scheduleSet off set p3) = .ok (s', ⟨rc, [], []⟩) := by
     simp only [TdmaSched.step, h, bind, Except.bind, pure, Except.pure]
-  obtain ⟨h1, h2, _⟩ := tstep_track env s s' _ _ x pos hinv hop hat
+  obtain ⟨h1, h2, _⟩ := tstep_track env hne s s' _ _ x pos hinv hop hat
     (by intro it hit hx'; subst hx'; exact hx (by simpa [placed, absOp] using hit)) hstep
   exact ⟨h1, h2⟩
 
@@ -201,7 +200,7 @@ theorem scheduleSet_place (env : Env) (s s' : Sched) (off : Nat) (set : List Ite
           exact hfresh _ he
 
 /-- the events handed over by one `sched_gsmtime_execute`, none of whose sets contains `x` -/
-theorem schedAll_track (env : Env) (x : AItem Cb) (pos : Option Nat) : ∀ (es : List Event) (s s' : Sched)
+theorem schedAll_track (env : Env) (hne : NoReentry env) (x : AItem Cb) (pos : Option Nat) : ∀ (es : List Event) (s s' : Sched)
     (cs : List Call), Inv env s → At x (abs s) pos → (∀ e ∈ es, SetOk env e) →
     (∀ e ∈ es, x ∉ (framesOf e.p3 e.si).flatten) → schedAll s es = .ok (s', cs) →
     Inv env s' ∧ At x (abs s') pos
@@ -220,15 +219,15 @@ theorem schedAll_track (env : Env) (x : AItem Cb) (pos : Option Nat) : ∀ (es :
       | ok q2 =>
         obtain ⟨s2, cs2⟩ := q2
         simp only [h2, Except.ok.injEq, Prod.mk.injEq] at h
-        obtain ⟨i1, a1⟩ := scheduleSet_track env s s1 frameOffset e.si e.p3 rc x pos hi
+        obtain ⟨i1, a1⟩ := scheduleSet_track env hne s s1 frameOffset e.si e.p3 rc x pos hi
           (hok e (List.mem_cons_self ..)) hat (hcl e (List.mem_cons_self ..)) h1
         rw [← h.1]
-        exact schedAll_track env x pos es s1 s2 cs2 i1 a1 (fun y hy => hok y (List.mem_cons_of_mem _ hy))
+        exact schedAll_track env hne x pos es s1 s2 cs2 i1 a1 (fun y hy => hok y (List.mem_cons_of_mem _ hy))
           (fun y hy => hcl y (List.mem_cons_of_mem _ hy)) h2
 
 /-- the events handed over by one `sched_gsmtime_execute`, among them `ev`, whose set places `x`; the sets of
 the others do not contain `x` -/
-theorem schedAll_place (env : Env) (x : AItem Cb) (ev : Event) (k : Nat) (f : List (AItem Cb))
+theorem schedAll_place (env : Env) (hne : NoReentry env) (x : AItem Cb) (ev : Event) (k : Nat) (f : List (AItem Cb))
     (hdepth : frameOffset + markers ev.si < 25) (hk : (framesOf ev.p3 ev.si)[k]? = some f) (hx1 : f.count x = 1)
     (hx0 : ∀ k' f', k' ≠ k → (framesOf ev.p3 ev.si)[k']? = some f' → x ∉ f') :
     ∀ (es : List Event) (s s' : Sched) (cs : List Call), Inv env s → At x (abs s) none → ev ∈ es →
@@ -266,7 +265,7 @@ theorem schedAll_place (env : Env) (x : AItem Cb) (ev : Event) (k : Nat) (f : Li
             simp only [Except.ok.injEq, Prod.mk.injEq] at h2
             rw [← h2.1]
             exact ⟨i3, rc, List.mem_cons_self .., fun h => absurd hrc h⟩
-          · obtain ⟨i2, a2⟩ := schedAll_track env x (some (frameOffset + k)) es s1 s2 cs2 i1 (a1 hrc)
+          · obtain ⟨i2, a2⟩ := schedAll_track env hne x (some (frameOffset + k)) es s1 s2 cs2 i1 (a1 hrc)
               (fun y hy => hok y (List.mem_cons_of_mem _ hy))
               (fun y hy => hcl y (List.mem_cons_of_mem _ hy) (hrest y hy)) h2
             exact ⟨i2, rc, List.mem_cons_self .., fun _ => a2⟩
@@ -275,9 +274,9 @@ theorem schedAll_place (env : Env) (x : AItem Cb) (ev : Event) (k : Nat) (f : Li
             rcases hev with h | h
             · exact absurd h.symm hee
             · exact h
-          obtain ⟨i1, a1⟩ := scheduleSet_track env s s1 frameOffset e.si e.p3 rc x none hi
+          obtain ⟨i1, a1⟩ := scheduleSet_track env hne s s1 frameOffset e.si e.p3 rc x none hi
             (hok e (List.mem_cons_self ..)) hat (hcl e (List.mem_cons_self ..) hee) h1
-          obtain ⟨i2, rc2, m2, a2⟩ := schedAll_place env x ev k f hdepth hk hx1 hx0 es s1 s2 cs2 i1 a1 hev' hn.2
+          obtain ⟨i2, rc2, m2, a2⟩ := schedAll_place env hne x ev k f hdepth hk hx1 hx0 es s1 s2 cs2 i1 a1 hev' hn.2
             (fun y hy => hok y (List.mem_cons_of_mem _ hy))
             (fun y hy => hcl y (List.mem_cons_of_mem _ hy)) h2
           exact ⟨i2, rc2, List.mem_cons_of_mem _ m2, a2⟩
@@ -324,10 +323,10 @@ structure Tracked (env : Env) (x : AItem Cb) (st : Sys) (pos : Option Nat) (skip
   at_ : At x (abs st.s) pos
   clean : ∀ e ∈ st.g.active, some e ≠ skip → x ∉ (framesOf e.p3 e.si).flatten
 
-theorem sstep_traffic (env : Env) (x : AItem Cb) (st st' : Sys) (op : SOp) (o : SOut) (pos : Option Nat)
+theorem sstep_traffic (env : Env) (hne : NoReentry env) (x : AItem Cb) (st st' : Sys) (op : SOp) (o : SOut) (pos : Option Nat)
     (skip : Option Event) (ht : Tracked env x st pos skip) (hop : TrafficOk env x op)
     (h : sstep env st op = .ok (st', o)) : Tracked env x st' pos skip := by
-  obtain ⟨st1, o1, h1, i1⟩ := sstep_safe env st op ht.safe hop.opSafe
+  obtain ⟨st1, o1, h1, i1⟩ := sstep_safe env (TdmaSched.noReentry_envOk env hne) st op ht.safe hop.opSafe
   rw [h1] at h
   simp only [Except.ok.injEq, Prod.mk.injEq] at h
   obtain ⟨e1, e2⟩ := h
@@ -361,16 +360,16 @@ theorem sstep_traffic (env : Env) (x : AItem Cb) (st st' : Sys) (op : SOp) (o : 
     rw [hs]
     cases top with
     | schedule off cb p1 p2 p3 prio =>
-      exact (tstep_track env st.s s2 _ o2 x pos ht.safe.2.1 hop.1 ht.at_
+      exact (tstep_track env hne st.s s2 _ o2 x pos ht.safe.2.1 hop.1 ht.at_
         (by intro it hit; simp only [absOp, placed, List.mem_singleton] at hit; rw [hit]; exact hop.2) h2).2.1
     | scheduleSet off set p3 =>
-      exact (tstep_track env st.s s2 _ o2 x pos ht.safe.2.1 hop.1 ht.at_
+      exact (tstep_track env hne st.s s2 _ o2 x pos ht.safe.2.1 hop.1 ht.at_
         (by intro it hit hx'; subst hx'; exact hop.2 (by simpa [placed, absOp] using hit)) h2).2.1
     | advance => exact absurd hop (by simp [TrafficOk])
     | execute => exact absurd hop (by simp [TrafficOk])
     | reset => exact absurd hop (by simp [TrafficOk])
 
-theorem srun_traffic (env : Env) (x : AItem Cb) (pos : Option Nat) (skip : Option Event) :
+theorem srun_traffic (env : Env) (hne : NoReentry env) (x : AItem Cb) (pos : Option Nat) (skip : Option Event) :
     ∀ (ops : List SOp) (st st' : Sys) (outs : List SOut), Tracked env x st pos skip →
     (∀ op ∈ ops, TrafficOk env x op) → srun env st ops = .ok (st', outs) → Tracked env x st' pos skip
   | [], st, st', outs, ht, _, h => by
@@ -378,8 +377,8 @@ theorem srun_traffic (env : Env) (x : AItem Cb) (pos : Option Nat) (skip : Optio
     rw [← h.1]; exact ht
   | op :: ops, st, st', outs, ht, hops, h => by
     obtain ⟨st1, o, os, h1, h2, _⟩ := srun_cons_ok env st st' op ops outs h
-    exact srun_traffic env x pos skip ops st1 st' os
-      (sstep_traffic env x st st1 op o pos skip ht (hops op (List.mem_cons_self ..)) h1)
+    exact srun_traffic env hne x pos skip ops st1 st' os
+      (sstep_traffic env hne x st st1 op o pos skip ht (hops op (List.mem_cons_self ..)) h1)
       (fun y hy => hops y (List.mem_cons_of_mem _ hy)) h2
 
 /-- the requests of a frame are admissible and do not schedule `x` -/
@@ -420,11 +419,11 @@ theorem trackStep_frame (pos : Option Nat) (h : ∀ d, pos = some d → d < 25) 
       · trivial
 
 theorem step_of_advance (env : Env) (s s' : Sched) (h : TdmaSched.advance s = .ok s') :
-    TdmaSched.step env s .advance = .ok (s', ⟨0, []⟩) := by
+    TdmaSched.step env s .advance = .ok (s', ⟨0, [], []⟩) := by
   simp only [TdmaSched.step, h, bind, Except.bind, pure, Except.pure]
 
 /-- a frame interrupt whose `sched_gsmtime_execute` does not hand over the event `skip` -/
-theorem l1Sync_idle (env : Env) (x : AItem Cb) (st st' : Sys) (fr : Frame) (o : FrameOut) (pos : Option Nat)
+theorem l1Sync_idle (env : Env) (hne : NoReentry env) (x : AItem Cb) (st st' : Sys) (fr : Frame) (o : FrameOut) (pos : Option Nat)
     (skip : Option Event) (ht : Tracked env x st pos skip) (hfr : FrameTraffic env x fr)
     (hskip : ∀ ev, skip = some ev → ev ∈ st.g.active ∧ target fr.fn ≠ ev.fn)
     (h : l1Sync env st fr = .ok (st', o)) :
@@ -432,16 +431,16 @@ theorem l1Sync_idle (env : Env) (x : AItem Cb) (st st' : Sys) (fr : Frame) (o : 
       (∀ ev, skip = some ev → ev ∈ st'.g.active) := by
   obtain ⟨st1, s2, st3, g4, s4, s5, h1, h2, h3, h4, h5, h6⟩ := l1Sync_ok env st st' fr o h
   -- requests before tdma_sched_execute
-  have t1 := srun_traffic env x pos skip fr.pre st st1 o.pre ht hfr.1 h1
+  have t1 := srun_traffic env hne x pos skip fr.pre st st1 o.pre ht hfr.1 h1
   obtain ⟨g1, _⟩ := srun_g env fr.pre st st1 o.pre ht.safe.1 h1
   -- tdma_sched_execute
-  obtain ⟨i2, a2, c2⟩ := tstep_track env st1.s s2 .execute o.exec x pos t1.safe.2.1 trivial t1.at_
+  obtain ⟨i2, a2, c2⟩ := tstep_track env hne st1.s s2 .execute o.exec x pos t1.safe.2.1 trivial t1.at_
     (by intro it hit; simp [absOp, placed] at hit) h2
   obtain ⟨p1, p2⟩ := trackStep_frame pos t1.at_.1
   -- requests between tdma_sched_execute and sched_gsmtime_execute
   have t2 : Tracked env x ⟨st1.g, s2⟩ (trackStep pos (absOp .execute)).1 skip :=
     ⟨⟨t1.safe.1, i2, t1.safe.2.2⟩, a2, t1.clean⟩
-  have t3 := srun_traffic env x _ skip fr.mid ⟨st1.g, s2⟩ st3 o.mid t2 hfr.2 h3
+  have t3 := srun_traffic env hne x _ skip fr.mid ⟨st1.g, s2⟩ st3 o.mid t2 hfr.2 h3
   obtain ⟨g3, _⟩ := srun_g env fr.mid ⟨st1.g, s2⟩ st3 o.mid t1.safe.1 h3
   -- sched_gsmtime_execute
   obtain ⟨e4, sa4, _, _⟩ := execute_g st3.g g4 st3.s s4 fr.fn o.num o.calls t3.safe.1 h4
@@ -451,7 +450,7 @@ theorem l1Sync_idle (env : Env) (x : AItem Cb) (st st' : Sys) (fr : Frame) (o : 
     simp only []
     rw [g1]
     exact gtraffic_keeps _ _ ev hfr.noGexec.2 (gtraffic_keeps _ _ ev hfr.noGexec.1 (hskip ev hs).1)
-  obtain ⟨i4, a4⟩ := schedAll_track env x _ (gexecG st3.g fr.fn).2 st3.s s4 o.calls t3.safe.2.1 t3.at_
+  obtain ⟨i4, a4⟩ := schedAll_track env hne x _ (gexecG st3.g fr.fn).2 st3.s s4 o.calls t3.safe.2.1 t3.at_
     (fun e he => t3.safe.2.2 e (List.mem_filter.mp he).1)
     (by
       intro e he
@@ -461,7 +460,7 @@ theorem l1Sync_idle (env : Env) (x : AItem Cb) (st st' : Sys) (fr : Frame) (o : 
       have := (hskip e hs.symm).2
       omega) sa4
   -- tdma_sched_advance
-  obtain ⟨i5, a5, _⟩ := tstep_track env s4 s5 .advance ⟨0, []⟩ x _ i4 trivial a4
+  obtain ⟨i5, a5, _⟩ := tstep_track env hne s4 s5 .advance ⟨0, [], []⟩ x _ i4 trivial a4
     (by intro it hit; simp [absOp, placed] at hit) (step_of_advance env s4 s5 h5)
   subst h6
   refine ⟨⟨⟨?_, i5, ?_⟩, by rw [← p1]; exact a5, ?_⟩, by rw [c2, p2], ?_⟩
@@ -477,7 +476,7 @@ theorem l1Sync_idle (env : Env) (x : AItem Cb) (st st' : Sys) (fr : Frame) (o : 
     exact (gexecG_miss st3.g fr.fn ev t3.safe.1 (hmem ev hs) (hskip ev hs).2).1
 
 /-- the frame interrupt whose `sched_gsmtime_execute` hands over `ev`, whose item set places `x` -/
-theorem l1Sync_hit (env : Env) (x : AItem Cb) (st st' : Sys) (fr : Frame) (o : FrameOut) (ev : Event)
+theorem l1Sync_hit (env : Env) (hne : NoReentry env) (x : AItem Cb) (st st' : Sys) (fr : Frame) (o : FrameOut) (ev : Event)
     (k : Nat) (f : List (AItem Cb)) (ht : Tracked env x st none (some ev)) (hfr : FrameTraffic env x fr)
     (hev : ev ∈ st.g.active) (heq : target fr.fn = ev.fn)
     (hdepth : frameOffset + markers ev.si < 25) (hk : (framesOf ev.p3 ev.si)[k]? = some f) (hx1 : f.count x = 1)
@@ -487,12 +486,12 @@ theorem l1Sync_hit (env : Env) (x : AItem Cb) (st st' : Sys) (fr : Frame) (o : F
       ∃ c, o.calls.filter (fun c => c.slot = ev.slot) = [c] ∧ CallFor ev c ∧
         (c.rc ≠ -1 → At x (abs st'.s) (some k)) := by
   obtain ⟨st1, s2, st3, g4, s4, s5, h1, h2, h3, h4, h5, h6⟩ := l1Sync_ok env st st' fr o h
-  have t1 := srun_traffic env x none (some ev) fr.pre st st1 o.pre ht hfr.1 h1
+  have t1 := srun_traffic env hne x none (some ev) fr.pre st st1 o.pre ht hfr.1 h1
   obtain ⟨g1, _⟩ := srun_g env fr.pre st st1 o.pre ht.safe.1 h1
-  obtain ⟨i2, a2, c2⟩ := tstep_track env st1.s s2 .execute o.exec x none t1.safe.2.1 trivial t1.at_
+  obtain ⟨i2, a2, c2⟩ := tstep_track env hne st1.s s2 .execute o.exec x none t1.safe.2.1 trivial t1.at_
     (by intro it hit; simp [absOp, placed] at hit) h2
   have t2 : Tracked env x ⟨st1.g, s2⟩ none (some ev) := ⟨⟨t1.safe.1, i2, t1.safe.2.2⟩, a2, t1.clean⟩
-  have t3 := srun_traffic env x _ (some ev) fr.mid ⟨st1.g, s2⟩ st3 o.mid t2 hfr.2 h3
+  have t3 := srun_traffic env hne x _ (some ev) fr.mid ⟨st1.g, s2⟩ st3 o.mid t2 hfr.2 h3
   obtain ⟨g3, _⟩ := srun_g env fr.mid ⟨st1.g, s2⟩ st3 o.mid t1.safe.1 h3
   obtain ⟨e4, sa4, _, co4⟩ := execute_g st3.g g4 st3.s s4 fr.fn o.num o.calls t3.safe.1 h4
   have hmem : ev ∈ st3.g.active := by
@@ -506,7 +505,7 @@ theorem l1Sync_hit (env : Env) (x : AItem Cb) (st st' : Sys) (fr : Frame) (o : F
     exact (List.mem_filter.mp this).1
   have hnd : (slots (gexecG st3.g fr.fn).2).Nodup :=
     (List.filter_sublist.map _).nodup t3.safe.1.nodup_active
-  obtain ⟨i4, rc, hc, a4⟩ := schedAll_place env x ev k f hdepth hk hx1 hx0 (gexecG st3.g fr.fn).2 st3.s s4
+  obtain ⟨i4, rc, hc, a4⟩ := schedAll_place env hne x ev k f hdepth hk hx1 hx0 (gexecG st3.g fr.fn).2 st3.s s4
     o.calls t3.safe.2.1 t3.at_ hfired hnd
     (fun e he => t3.safe.2.2 e (List.mem_filter.mp he).1)
     (by
@@ -546,7 +545,7 @@ theorem l1Sync_hit (env : Env) (x : AItem Cb) (st st' : Sys) (fr : Frame) (o : F
   · intro hrc
     rw [hcc] at hrc
     have a4' := a4 hrc
-    obtain ⟨_, a5, _⟩ := tstep_track env s4 s5 .advance ⟨0, []⟩ x _ i4 trivial a4'
+    obtain ⟨_, a5, _⟩ := tstep_track env hne s4 s5 .advance ⟨0, [], []⟩ x _ i4 trivial a4'
       (by intro it hit; simp [absOp, placed] at hit) (step_of_advance env s4 s5 h5)
     have hfo := frameOffset_eq
     have : (trackStep (some (frameOffset + k)) (absOp .advance)).1 = some k := by
@@ -556,7 +555,7 @@ theorem l1Sync_hit (env : Env) (x : AItem Cb) (st st' : Sys) (fr : Frame) (o : F
     exact a5
 
 /-- frames in which the event `ev` stays pending: `x` is nowhere and does not run -/
-theorem frames_before (env : Env) (x : AItem Cb) (ev : Event) : ∀ (frs : List Frame) (st st' : Sys)
+theorem frames_before (env : Env) (hne : NoReentry env) (x : AItem Cb) (ev : Event) : ∀ (frs : List Frame) (st st' : Sys)
     (outs : List FrameOut), Tracked env x st none (some ev) → ev ∈ st.g.active →
     (∀ fr ∈ frs, FrameTraffic env x fr ∧ target fr.fn ≠ ev.fn) → runFrames env st frs = .ok (st', outs) →
     Tracked env x st' none (some ev) ∧ ev ∈ st'.g.active ∧ ∀ o ∈ outs, ranCount x o.exec = 0
@@ -567,9 +566,9 @@ theorem frames_before (env : Env) (x : AItem Cb) (ev : Event) : ∀ (frs : List 
   | fr :: frs, st, st', outs, ht, hev, hfr, h => by
     obtain ⟨st1, o, os, h1, h2, h3⟩ := runFrames_cons_ok env st st' fr frs outs h
     obtain ⟨hf1, hf2⟩ := hfr fr (List.mem_cons_self ..)
-    obtain ⟨t1, c1, m1⟩ := l1Sync_idle env x st st1 fr o none (some ev) ht hf1
+    obtain ⟨t1, c1, m1⟩ := l1Sync_idle env hne x st st1 fr o none (some ev) ht hf1
       (by intro e he; simp only [Option.some.injEq] at he; rw [← he]; exact ⟨hev, hf2⟩) h1
-    obtain ⟨r1, r2, r3⟩ := frames_before env x ev frs st1 st' os t1 (m1 ev rfl)
+    obtain ⟨r1, r2, r3⟩ := frames_before env hne x ev frs st1 st' os t1 (m1 ev rfl)
       (fun y hy => hfr y (List.mem_cons_of_mem _ hy)) h2
     refine ⟨r1, r2, ?_⟩
     intro o' ho'
@@ -581,7 +580,7 @@ theorem frames_before (env : Env) (x : AItem Cb) (ev : Event) : ∀ (frs : List 
 
 /-- the frames after: `x`, due in `d` frames (`pos = some d`), runs in the `tdma_sched_execute` of the d-th
 frame interrupt from here (0-based), once, and in no other -/
-theorem frames_countdown (env : Env) (x : AItem Cb) : ∀ (frs : List Frame) (st st' : Sys)
+theorem frames_countdown (env : Env) (hne : NoReentry env) (x : AItem Cb) : ∀ (frs : List Frame) (st st' : Sys)
     (outs : List FrameOut) (pos : Option Nat), Tracked env x st pos none →
     (∀ fr ∈ frs, FrameTraffic env x fr) → runFrames env st frs = .ok (st', outs) →
     ∀ j o, outs[j]? = some o → ranCount x o.exec = if pos = some j then 1 else 0
@@ -591,7 +590,7 @@ theorem frames_countdown (env : Env) (x : AItem Cb) : ∀ (frs : List Frame) (st
     simp at ho
   | fr :: frs, st, st', outs, pos, ht, hfr, h, j, o, ho => by
     obtain ⟨st1, o1, os, h1, h2, h3⟩ := runFrames_cons_ok env st st' fr frs outs h
-    obtain ⟨t1, c1, _⟩ := l1Sync_idle env x st st1 fr o1 pos none ht (hfr fr (List.mem_cons_self ..))
+    obtain ⟨t1, c1, _⟩ := l1Sync_idle env hne x st st1 fr o1 pos none ht (hfr fr (List.mem_cons_self ..))
       (by intro e he; simp at he) h1
     rw [h3] at ho
     cases j with
@@ -600,7 +599,7 @@ theorem frames_countdown (env : Env) (x : AItem Cb) : ∀ (frs : List Frame) (st
       rw [← ho, c1]
     | succ j =>
       simp only [List.getElem?_cons_succ] at ho
-      rw [frames_countdown env x frs st1 st' os (nextPos pos) t1
+      rw [frames_countdown env hne x frs st1 st' os (nextPos pos) t1
         (fun y hy => hfr y (List.mem_cons_of_mem _ hy)) h2 j o ho]
       apply Spec.TdmaSched.ite_iff
       cases pos with
